@@ -344,3 +344,48 @@ Proof.
     unfold isspace in Ei. cbn [forallb] in Ei. rewrite Hd in Ei. discriminate.
   - rewrite Sn. unfold s1. destruct s; reflexivity.
 Qed.
+
+(* ---- the motor protocol, for every board content ----
+   The sweep of Proofs/BoardProofs.v runs with one fixed variable store and nickname.  Here the variable store, the nickname, the
+   client's version and name are variables: each of the 20 x 36 (prior state, clamped request) cases is normalised by the kernel on
+   an open term (the board only copies those fields), so the statement holds for every board. *)
+(* the lines a motor request writes against a board whose variable store and nickname are arbitrary *)
+Definition motor_lines (sl : list Z) (nk : text) (e1 e2 : bool) (m r1 r2 : Z) (v : option (list Z)) (n : option text) : list text :=
+  let '((_, _, w, _), _) := cosim 6 cfg_fixed (mkebb true None v n) (CMotorsOn r1 r2) (mkboard sl nk e1 e2 m) [] in w.
+
+Lemma motors_general_one sl nk v n e1 e2 m r1 r2 : In m [1; 2; 3; 4; 5] -> In r1 range06 -> In r2 range06 ->
+  let b := mkboard sl nk e1 e2 m in let s := mkebb true None v n in
+  exists b', coherent cfg_fixed s (CMotorsOn r1 r2) b s (Ret RNone) (motor_lines sl nk e1 e2 m r1 r2 v n) b' /\
+    slots b' = sl /\ nick b' = nk /\ en1 b' = negb (r1 =? 0) /\ en2 b' = negb (r2 =? 0) /\
+    mode b' = (if negb (r1 =? 0) then r1 else if negb (r2 =? 0) then r2 else m).
+Proof.
+  intros Hm H1 H2 b s. subst b s. unfold range06 in *. cbn [In] in Hm, H1, H2.
+  destruct e1, e2;
+  (destruct Hm as [<-|[<-|[<-|[<-|[<-|[]]]]]];
+   destruct H1 as [<-|[<-|[<-|[<-|[<-|[<-|[]]]]]]];
+   destruct H2 as [<-|[<-|[<-|[<-|[<-|[<-|[]]]]]]];
+   eexists; unfold coherent; vm_compute; repeat split; reflexivity).
+Qed.
+
+(* every board (any variable store, any nickname), every connected error-free client state, every integer request *)
+Theorem motors_general c s b r1 r2 : s_live s -> 1 <= mode b <= 5 ->
+  let c1 := clamp05 r1 in let c2 := clamp05 r2 in
+  exists w b', coherent c s (CMotorsOn r1 r2) b s (Ret RNone) w b' /\
+    slots b' = slots b /\ nick b' = nick b /\ en1 b' = negb (c1 =? 0) /\ en2 b' = negb (c2 =? 0) /\
+    mode b' = (if negb (c1 =? 0) then c1 else if negb (c2 =? 0) then c2 else mode b).
+Proof.
+  intros [Hp He] Hm c1 c2. destruct b as [sl nk e1 e2 m]. destruct s as [p e v n]. cbn [port err mode] in *. subst p e.
+  assert (Im : In m [1; 2; 3; 4; 5]) by (cbn [In]; lia).
+  destruct (motors_general_one sl nk v n e1 e2 m c1 c2 Im (clamp05_range r1) (clamp05_range r2)) as (b' & C & R).
+  exists (motor_lines sl nk e1 e2 m c1 c2 v n), b'. split; [|exact R].
+  unfold coherent in *. cbn [step] in *. destruct C as [C1 C2]. split; [|exact C2].
+  rewrite motors_enable_clamps. exact C1.
+Qed.
+
+Theorem motors_query_general c s b : s_live s -> 1 <= mode b <= 5 ->
+  coherent c s CMotorsQuery b s (Ret (RPair (RInt (if en1 b then mode b else 0)) (RInt (if en2 b then mode b else 0)))) [T "QE"] b.
+Proof.
+  intros [Hp He] Hm. destruct b as [sl nk e1 e2 m]. destruct s as [p e v n]. cbn [port err mode en1 en2] in *. subst p e.
+  assert (Im : In m [1; 2; 3; 4; 5]) by (cbn [In]; lia). cbn [In] in Im.
+  destruct e1, e2; (destruct Im as [<-|[<-|[<-|[<-|[<-|[]]]]]]; unfold coherent; vm_compute; split; reflexivity).
+Qed.
